@@ -181,6 +181,14 @@ def oracle_delivery(f, ctxv):
     if delivered != wire[:len(delivered)]:
         ctxv(f'consumer saw {delivered} but the peer sent {wire}: not a prefix (gap, duplicate, reordering or invention)')
         return
+    drained = res.get('drained') or []
+    if (not res['closed'] and not stopped and cfg['mode'] == 'pull' and res.get('drained') is not None
+            and not any(ev == ['recv', it[1]] and it[1] not in f.rets() for it in f.script if it[0] == 'recv' for ev, _ in res['log'])):
+        if delivered + drained != wire:
+            late = [it[1] for it in f.script if it[0] == 'cancel' and f.rets().get(it[1]) == 'cancelled']
+            kind = 'late-cancel-lost-message' if late and len(delivered) + len(drained) < len(wire) else 'scenario'
+            ctxv((f'session open, all data polled, but consumer saw {delivered} and {drained} remained queued; the peer sent {wire}', kind))
+            return
     cancelled_users = [it[1] for it in f.script if it[0] == 'cancel']
     for u in cancelled_users:
         r = f.rets().get(u)
@@ -291,6 +299,10 @@ def violations_of(prop, cfg, script, res):
     return out
 
 
+def split_kind(v):
+    return v if isinstance(v, tuple) else (v, 'scenario')
+
+
 def shrink(prop, cfg, script, seed, what, budget=60):
     """greedy removal of script items while the same kind of oracle failure persists"""
     key = what.split(':')[0][:40]
@@ -308,7 +320,7 @@ def shrink(prop, cfg, script, seed, what, budget=60):
                 v = violations_of(prop, cfg, cand, run_one(cfg, cand, seed))
             except Exception:   # noqa
                 continue
-            if any(x[:40] == key for x in v):
+            if any(split_kind(x)[0][:40] == key for x in v):
                 cur = cand
                 changed = True
     return cur
@@ -366,9 +378,10 @@ def run_family(ctx, prop):
         rep = {'kind': 'scenario', 'cfg': cfg_to_json(cfg), 'script': script_to_json(script), 'seed': seed}
         v = violations_of(prop, cfg, script, res)
         if v:
-            small = shrink(prop, cfg, script, seed, v[0]) if len(ctx.violations) < 3 else script
-            rep = {'kind': 'scenario', 'cfg': cfg_to_json(cfg), 'script': script_to_json(small), 'seed': seed}
-            ctx.violation(v[0], rep)
+            what, kind = split_kind(v[0])
+            small = shrink(prop, cfg, script, seed, what) if (len(ctx.violations) < 3 and kind == 'scenario') else script
+            rep = {'kind': kind, 'cfg': cfg_to_json(cfg), 'script': script_to_json(small), 'seed': seed}
+            ctx.violation(what, rep)
         if ans is not None:
             try:
                 dis = SC.compare(cfg, res, ans)
@@ -392,8 +405,9 @@ def replay_family(ctx, prop, path):
     print('log:', [(sx(SC.ev_sx(e)), [SC.obs_canon(x) for x in o]) for e, o in res['log'] if o or not (isinstance(e, list) and e[0] == 'run')])
     print('closed', res['closed'], 'alive', res['alive'], 'task exceptions', res['task_exceptions'], res['loop_exceptions'])
     for v in violations_of(prop, cfg, script, res):
-        print('ORACLE:', v)
-        ctx.violation(v, rep)
+        what, kind = split_kind(v)
+        print('ORACLE:', what)
+        ctx.violation(what, dict(rep, kind=kind))
     if ans is not None:
         for d in SC.compare(cfg, res, ans):
             print('MODEL:', d)
